@@ -12,7 +12,9 @@ package main
 
 import (
 	"fmt"
+	"go/token"
 	"go/types"
+	"path/filepath"
 	"sort"
 	"strings"
 
@@ -224,4 +226,93 @@ func atomicFieldScan(cfg *Config) map[string]string {
 		}
 	}
 	return res
+}
+
+// cmdAtomics is a diagnostic (not a registered check): it lists every plain
+// access, anywhere in the repository's internal packages, to a struct field
+// that is also written through sync/atomic.  Sites in constructors are
+// harmless; the others are candidates for operations a C05 entry should run.
+func cmdAtomics(args []string) int {
+	if len(args) < 1 {
+		usage()
+	}
+	id := args[0]
+	h, err := parseHarness(id, filepath.Join(verifDir(), "harness", id))
+	if err != nil {
+		fmt.Println(err)
+		return 2
+	}
+	cfg := &Config{MaxSteps: 1, Unwind: 1, knownIDs: map[string]bool{}, skipInitPkgs: map[string]bool{}}
+	if err := loadProgram(h, cfg); err != nil {
+		fmt.Println("cannot load:", err)
+		return 2
+	}
+	set := atomicFieldScan(cfg)
+	keys := []string{}
+	for k := range set {
+		keys = append(keys, k)
+	}
+	sort.Strings(keys)
+	for _, k := range keys {
+		fmt.Printf("atomic field %s  (%s)\n", k, set[k])
+	}
+	check := func(f *ssa.Function, ins ssa.Instruction, addr ssa.Value, kind string) {
+		if fa, ok := addr.(*ssa.FieldAddr); ok {
+			if _, hit := set[atomicFieldKey(fa.X.Type(), fa.Field)]; hit {
+				fmt.Printf("  plain %s of %s in %s (%s)\n", kind, atomicFieldKey(fa.X.Type(), fa.Field), f, cfg.prog.Fset.Position(ins.Pos()))
+			}
+		}
+		if pt, ok := addr.Type().Underlying().(*types.Pointer); ok {
+			if st, ok := pt.Elem().Underlying().(*types.Struct); ok {
+				for i := 0; i < st.NumFields(); i++ {
+					if _, hit := set[fmt.Sprintf("%s#%d", pt.Elem().String(), i)]; hit {
+						fmt.Printf("  plain whole-struct %s of %s (field %s) in %s (%s)\n", kind, pt.Elem().String(), st.Field(i).Name(), f, cfg.prog.Fset.Position(ins.Pos()))
+					}
+				}
+			}
+		}
+	}
+	for _, pkg := range cfg.prog.AllPackages() {
+		path := pkg.Pkg.Path()
+		if !strings.HasPrefix(path, repoMod+"/internal") || strings.Contains(path, "/internal/next") {
+			continue
+		}
+		var walk func(f *ssa.Function)
+		walk = func(f *ssa.Function) {
+			if strings.Contains(f.Name(), "vx") {
+				return
+			}
+			for _, b := range f.Blocks {
+				for _, ins := range b.Instrs {
+					switch ins := ins.(type) {
+					case *ssa.UnOp:
+						if ins.Op == token.MUL {
+							check(f, ins, ins.X, "read")
+						}
+					case *ssa.Store:
+						check(f, ins, ins.Addr, "write")
+					}
+				}
+			}
+			for _, af := range f.AnonFuncs {
+				walk(af)
+			}
+		}
+		for _, m := range pkg.Members {
+			switch m := m.(type) {
+			case *ssa.Function:
+				walk(m)
+			case *ssa.Type:
+				for _, T := range []types.Type{m.Type(), ptrTo(m.Type())} {
+					ms := cfg.prog.MethodSets.MethodSet(T)
+					for i := 0; i < ms.Len(); i++ {
+						if fn := cfg.prog.MethodValue(ms.At(i)); fn != nil && fn.Pkg == pkg {
+							walk(fn)
+						}
+					}
+				}
+			}
+		}
+	}
+	return 0
 }
